@@ -100,43 +100,55 @@ def analyse(pid, tier, root, seed):
 
 def reconcile(pid, tier, repo_root, seed, ctx, err):
     """the source as written did not come out clean: decide each failing rule on the normalised views of the same program
-    (sa/views.py).  Returns (ctx to report, err)."""
+    (sa/views.py), built one after the other until every failing rule has been recognised somewhere.  Returns (ctx to report, err, runs)."""
     import hashlib
     import shutil
     from .views import VIEWS, make_view
     runs = [('source as written', ctx, err)]
     seen = set()
-    for name, cf in VIEWS:
-        d, changed = make_view(repo_root, cf[0] if cf else None)
+    NEVER = {'HIST', 'GEN'}   # these report a construct that is there (a memo, a hazard), not a shape that is missing: a view never clears them
+    state = {'primary': None, 'pname': None, 'failing': set(), 'cleared': {}}
+
+    def clean_for(c, r):
+        return not [f for f in split_findings(c)[0] if f.rule == r] and [o for o in c.obligations if o[0] == r and o[2]]
+
+    def absorb(name, c, e):
+        if e is not None:
+            return
+        if state['primary'] is None:
+            state['primary'], state['pname'] = c, name
+            state['failing'] = {f.rule for f in split_findings(c)[0]} - NEVER
+            for n2, c2, e2 in runs:          # earlier complete runs cannot exist (the first complete run is the primary)
+                pass
+            return
+        for r in sorted(state['failing'] - set(state['cleared'])):
+            if clean_for(c, r):
+                state['cleared'][r] = name
+    absorb('source as written', ctx, err)
+    for name, (cf, lookups) in VIEWS:
+        if state['primary'] is not None and not (state['failing'] - set(state['cleared'])):
+            break
+        d, changed = make_view(repo_root, cf, lookups)
         try:
             if not changed:
                 continue
             h = hashlib.sha256()
             for rel in sorted(changed):
+                h.update(rel.encode())
                 h.update(open(os.path.join(d, rel), 'rb').read())
             if h.hexdigest() in seen:
                 continue
             seen.add(h.hexdigest())
             cv, ev = analyse(pid, tier, d, seed)
             cv.repo = repo_root
-            runs.append(('view `%s` (%s)' % (name, ', '.join(changed)), cv, ev))
+            vname = 'view `%s`' % name
+            runs.append((vname, cv, ev))
+            absorb(vname, cv, ev)
         finally:
             shutil.rmtree(d, ignore_errors=True)
-    complete = [(n, c) for n, c, e in runs if e is None]
-    if not complete:
+    primary, pname, cleared = state['primary'], state['pname'], state['cleared']
+    if primary is None:
         return ctx, err, runs
-    pname, primary = complete[0]
-    new = split_findings(primary)[0]
-    # HIST and GEN report a construct that is there (a memo, a hazard), not a shape that is missing: a view never clears them
-    failing = sorted({f.rule for f in new} - {'HIST', 'GEN'})
-    cleared = {}
-    for r in failing:
-        for n, c in complete:
-            if c is primary:
-                continue
-            if not [f for f in split_findings(c)[0] if f.rule == r] and [o for o in c.obligations if o[0] == r and o[2]]:
-                cleared[r] = n
-                break
     if primary is not ctx:
         primary.info('the source as written could not be analysed (%s); the verdict is that of the %s, which computes the same thing' % (
             err[1] if err else 'findings', pname))
